@@ -473,6 +473,21 @@ class Rewriter:
         if getattr(self, "entryrw", False):  # opt-in (`:: entryrw=1`): R22 (`.entry(k).or_insert_with(|| b)` -> the match it abbreviates), see rewrites_entry.py
             import rewrites_entry
             rewrites_entry.apply_entryrw(self, Unsupported)
+        if getattr(self, "fnptr", False):  # opt-in (`:: fnptr=1`): R28 (`Box<fn() -> T>` -> prelude stand-in `FnPtr0<T>`, `(x.f)()` -> `x.f.call0()`), see rewrites_fnptr.py
+            import rewrites_fnptr
+            rewrites_fnptr.apply_fnptr(self, Unsupported)
+        if getattr(self, "andthen", False) or getattr(self, "closurepat", False) or getattr(self, "enumloop", False) or getattr(self, "mutiter", False):
+            # opt-in: R27 (`o.and_then(|x| b)` -> its match), R26 (tuple-pattern closure parameter -> let), R25 (`for (i, x) in
+            # e.iter().enumerate()` -> index loop), R29 (`for x in &mut e` -> index loop), see rewrites_iter.py
+            import rewrites_iter
+            if getattr(self, "andthen", False):
+                rewrites_iter.apply_andthen(self, Unsupported)
+            if getattr(self, "closurepat", False):
+                rewrites_iter.apply_closurepat(self, Unsupported)
+            if getattr(self, "enumloop", False):
+                rewrites_iter.apply_enumloop(self, Unsupported)
+            if getattr(self, "mutiter", False):
+                rewrites_iter.apply_mutiter(self, Unsupported)
         return self.t
 
     # R14 ------------------------------------------------------------
@@ -1108,6 +1123,7 @@ def emit_plain(u: Unit, kind, fpath, name, opts):
     attrs = leading_attrs(src.src, src.m, it.start)
     rw = Rewriter(text, what)
     rw.cfg_on = set(x.strip() for x in opts.get("cfg_on", "").split(",") if x.strip())  # R16
+    rw.fnptr, rw.fnptr_src = opts.get("fnptr") == "1", src  # R28
     t = rw.common()
     if opts.get("mod") and opts.get("rootpaths") == "1":
         rw.r3m_super_paths(len(opts["mod"].split("::")))
@@ -1265,6 +1281,9 @@ def emit_fn(u: Unit, fpath, impl_pat, name, spec: FnSpec, reach: bool, mutate):
     rw.macros, rw.macro_src = spec.opts.get("macros", ""), src  # R21
     rw.asyncblk, rw.mutself = spec.opts.get("asyncblk"), spec.opts.get("mutself") == "1"  # R23 / R24
     rw.entryrw = spec.opts.get("entryrw") == "1"  # R22
+    rw.fnptr, rw.fnptr_src = spec.opts.get("fnptr") == "1", src  # R28
+    rw.andthen, rw.closurepat = spec.opts.get("andthen") == "1", spec.opts.get("closurepat") == "1"  # R27 / R26
+    rw.enumloop, rw.mutiter = spec.opts.get("enumloop") == "1", spec.opts.get("mutiter") == "1"  # R25 / R29
     try:
         t = rw.common()
         if spec.opts.get("mod") and spec.opts.get("rootpaths") == "1":
@@ -1419,8 +1438,11 @@ def structural_check(kind, files, pattern, allowed):
                     line = src.src.count("\n", 0, mm.start()) + 1
                     bad.append("%s:%d `%s` in fn %s" % (fpath, line, src.src[mm.start():mm.end()], fn or "<top level>"))
     elif kind == "fields":
+        # (additive) `<file>#<mod::path>`: the struct lives in a nested module of the file
+        files, _, modpath = files.partition("#")
         src = source(files)
-        it = src.find_plain("struct", pattern)
+        lo, hi = mod_range(src, modpath)
+        it = src.find_plain("struct", pattern, lo, hi)
         names = []
         if it.body_open >= 0:
             body_lo = it.body_open + 1
@@ -1434,9 +1456,11 @@ def structural_check(kind, files, pattern, allowed):
         if missing:
             bad.append("%s: struct %s no longer has field(s) %s" % (files, pattern, ", ".join(missing)))
     else:
+        files, _, modpath = files.partition("#")  # (additive) `<file>#<mod::path>`, as for `fields`
         src = source(files)
         rx = re.compile(pattern)
-        blocks = [b for b in src.impl_blocks() if rx.search(b.header)]
+        lo, hi = mod_range(src, modpath)
+        blocks = [b for b in src.impl_blocks(lo, hi) if rx.search(b.header)]
         if len(blocks) != 1:
             raise ScanError("lost anchor: impl /%s/ in %s (%d matches)" % (pattern, files, len(blocks)))
         blk = blocks[0]
@@ -1502,7 +1526,16 @@ def emit_stub(u, text, header, spec, what, key, rw, rewritten=False):
         srw.r3_visibility()
         srw.r5_pin_erasure()
         srw.r14_extern_root() if hasattr(srw, "r14_extern_root") else None
+        if getattr(rw, "fnptr", False):  # R28t (types only) so that the stub's signature stays inside Verus' type language
+            import rewrites_fnptr
+            try:
+                srw.r12_phantom_fn()
+                rewrites_fnptr.apply_types(srw, Unsupported)
+            except Unsupported:
+                pass
         sig = srw.t
+        if getattr(rw, "mutself", False):  # R24 on the signature alone: `mut self` is rejected even on an external_body stub
+            sig = re.sub(r"\(\s*mut\s+self\b", "(self", sig, count=1)
     if spec.opts.get("as"):
         sig = re.sub(r"\bfn\s+[A-Za-z_][A-Za-z0-9_]*", "fn " + spec.opts["as"], sig, count=1)
     if spec.spec.strip():
